@@ -45,6 +45,7 @@ THEOREMS = [
     "Nix.C18.C18_shape_collect",
     "Nix.C18.C18_shape_tests",
     "Nix.C18.C18_shape_conversion",
+    "Nix.C18.C18_shape_refusal",
     "Nix.C18.C18_shape_readers",
     "Nix.C18.C18_shape_ops",
     "Nix.C18.C18_content_no_name_taken",
@@ -1075,9 +1076,9 @@ def run_cases(ctx, cases):
                 kss = histories_for(ctx.rng, n, exhaustive=(n <= 12 or not ctx.quick()))
                 # cuts inside a property conversion (model: interruptInside), then a re-run; and two cuts in a row
                 psteps = [j for j, s in enumerate(st["ok"]) if s[0] == "prop"]
-                pick = ctx.rng.sample(psteps, min(len(psteps), 2 if ctx.quick() else 4))
+                pick = ctx.rng.sample(psteps, min(len(psteps), 2))
                 for j in pick:
-                    for cc in ctx.rng.sample(range(0, 6), 2 if ctx.quick() else 3):
+                    for cc in ctx.rng.sample(range(0, 6), 2):
                         kss.append([[j, cc], None])
                 if len(psteps) > 1:
                     kss.append([[psteps[0], ctx.rng.randrange(3)], [0, ctx.rng.randrange(3)], None, None])
@@ -1228,7 +1229,7 @@ def gen_cases(ctx):
     rng = ctx.rng
     lib = lib_version()
     cases = []
-    n_small, n_large, n_tiny = ctx.budget((34, 3, 14), (400, 60, 160))
+    n_small, n_large, n_tiny = ctx.budget((34, 3, 14), (300, 40, 120))
     for _ in range(n_tiny):
         cases.append({"spec": gen_spec(rng, lib, "tiny", shape=rng.choice(["old", "old", "mixed", "mid", None])),
                       "lib": lib})
@@ -1457,6 +1458,47 @@ def content_diff(exp, got, after):
     return None
 
 
+def lost_after_failure(spec, path):
+    """first property of the spec that the file no longer holds completely (h5py level), or None"""
+    st = abstract(path)
+    have = {"/".join(e["path"]): e for e in st["props"]}
+    names = {"/".join(c) for c, _, _ in iter_props(spec)}
+    for comps, _, p in iter_props(spec):
+        key = "/".join(comps)
+        e = have.get(key)
+        if e is None:
+            return "property %s is gone" % key
+        if p["kind"] != "old":
+            continue
+        want_vals = [["f", _ctok(r[0][1])] if r[0][0] == "f" else r[0] for r in p["rows"]]
+        want_unc = [_ctok(r[1]) for r in p["rows"]]
+        if "old" in e:
+            got = e["old"]["rows"]
+            if [g[0] for g in got] != want_vals or [g[1] for g in got] != want_unc or \
+                    [g[2:] for g in got] != [r[2:] for r in p["rows"]]:
+                return "compound property %s changed" % key
+            continue
+        n = e["new"]
+        if n["values"] != want_vals:
+            return "property %s: values %s, expected %s" % (key, json.dumps(n["values"])[:200], json.dumps(want_vals)[:200])
+        q = have.get(key + ".uncertainty")
+        if q is not None and key + ".uncertainty" not in names and "new" in q:
+            gu = [v[1] for v in q["new"]["values"]]
+        else:
+            gu = [n["uncertainty"] or "0/1"] * len(want_vals)
+        if gu != want_unc:
+            return "property %s: per-value uncertainties lost (%s, expected %s)" % (key, gu, want_unc)
+        for i, suf in enumerate(SUFFIXES[1:], 2):
+            q = have.get(key + suf)
+            if q is not None and key + suf not in names and "new" in q:
+                gt = [v[1] for v in q["new"]["values"]]
+            else:
+                gt = [""] * len(want_vals)
+            if gt != [r[i] for r in p["rows"]]:
+                return "property %s: per-value %s lost (%s, expected %s)" % (key, suf[1:], gt, [r[i] for r in p["rows"]])
+    return None
+
+
 def _show(t):
     """a double token for a message: the token and its decimal reading"""
     try:
@@ -1522,6 +1564,17 @@ def check_spec(ctx, spec, lib, points="all", kill_points=(), tag="o"):
             # what is left must still be recognised as old
             if _raw_version(work) != list(spec["version"]):
                 fail("failed upgrade raised the version", _raw_version(work), list(spec["version"]))
+            # ... and nothing may have been lost: every property is still stored, in the old layout as it was or
+            # converted with every per-value extra (read with h5py: nixio refuses the file)
+            lost = lost_after_failure(spec, work)
+            if lost:
+                fail("content lost by an upgrade that failed", lost, "every property and per-value extra still stored")
+            # a second attempt fails the same way and changes nothing
+            before = abstract(work)
+            ret2, _ = invoke(work, 2, None, Runs())
+            if ret2 or abstract(work) != before:
+                fail("second attempt after a failed upgrade", {"returned": ret2, "same_file": abstract(work) == before},
+                     "fails again, file unchanged")
             return fails
         try:
             full = api_walk(work, nix.FileMode.ReadWrite)
@@ -1650,8 +1703,12 @@ def oracle(ctx, broken, hints):
 
 def matches_known(entry, failure):
     if entry.get("class") == "extra-name-collision":
+        # only the refusal itself: an upgrade (or the re-run after an interruption) that fails on such a file;
+        # lost content, a raised version or a changed file after the refusal are violations
         spec = failure.input.get("spec") if isinstance(failure.input, dict) else None
-        return bool(spec) and has_collision(spec)
+        refusal = failure.what == "upgrade of an old file failed" or (
+            failure.what.startswith("re-run after an interruption") and failure.what.endswith("failed"))
+        return bool(spec) and refusal and has_collision(spec)
     return False
 
 
